@@ -110,8 +110,11 @@ let reader rest =
   (next, cnt, ids)
 
 let eval inp obs =
-  (* CPN = CP with empty lists / no strategies passed as nil slices (no difference for the model) *)
-  let inp = (match inp with "CPN" :: rest -> "CP" :: rest | _ -> inp) in
+  (* CPN = CP with empty lists / no strategies passed as nil slices; CPA1/2/3 = the two argument slices
+     share / overhang one backing array (harness/cmd/vh/c19.go).  How the caller allocated its slices is
+     a harness dimension only: the model is a function of the VALUES.  After the call the harness reports
+     the caller's existing and options slices again ("ex .. op .."): they must be unchanged (purity). *)
+  let inp = (match inp with ("CPN" | "CPA1" | "CPA2" | "CPA3") :: rest -> "CP" :: rest | _ -> inp) in
   match inp with
   | "CP" :: rest ->
     let (next, cnt, ids) = reader rest in
@@ -128,9 +131,13 @@ let eval inp obs =
     let table = times nm (fun () -> let i = next () in let m = next () in (i, n_of_tok m)) in
     let o = ref obs in
     let (rounds, status, result) = parse_call false o in
-    let status = if !o <> [] then "unparsable" else status in
+    let post = ["ex"; string_of_int (List.length existing)] @ toks existing
+               @ ["op"; string_of_int (List.length options)] @ toks options in
+    let unchanged = (!o = post) in
     let (model_obs, sp, msp) = eval_cp existing options kinds (fun _ -> assoc_metric table) rounds status result in
-    { default_verdict with model_obs; spec_ok = Some sp; model_spec_ok = msp; nontrivial = (rounds <> []) }
+    { default_verdict with model_obs = model_obs @ post; spec_ok = Some (sp && unchanged);
+      model_spec_ok = msp; nontrivial = (rounds <> []);
+      note = (if unchanged then "" else "why=caller-slices-modified") }
   | "MC" :: rest ->
     (* MetricStrategy.Choose called directly on an arbitrary list (duplicates, empty) *)
     let (next, cnt, ids) = reader rest in
